@@ -72,7 +72,7 @@ fn items(prop: &str, plan: &Plan) -> Vec<Item> {
 }
 
 fn probes(plan: &Plan) -> Vec<String> {
-    plan.file_str("probes").split('\n').map(|s| s.to_string()).collect()
+    crate::scen_dict::probes_of(plan)
 }
 
 /// Builds an item; `stage` 1 = as exported, 2 = after the later operations (user lexicon, mapping).
